@@ -39,6 +39,11 @@ var deviceKnownNames = map[string]bool{"AnalogNoteOff": true, "AnalogNoteOn": tr
 	"init": true, "invokeActionPress": true, "invokeActionRelease": true, "key": true, "logFields": true, "processEvent": true, "readN": true,
 	"resolveHidraw": true, "shiftColor": true, "valueToColor": true}
 
+var deviceKnownFields = []string{"noLogs", "config", "InputDevice", "outputEvents", "midiIn", "sigs", "openrgbPort", "eventProcessMutex",
+	"octave", "semitone", "channel", "velocity", "multiNote", "mapping", "ccLearning", "ccZeroed", "lastAnalogValue", "noteTracker",
+	"analogNoteTracker", "activeNotesCounter", "actionTracker", "keyTracker", "externalNoteTracker", "externalTrackerMutex",
+	"actionsPress", "actionsRelease"}
+
 // newHelpers: named functions of package device that the reference tree does not have.
 func (d *dev) newHelpers() map[*ssa.Function]bool {
 	out := map[*ssa.Function]bool{}
@@ -46,7 +51,15 @@ func (d *dev) newHelpers() map[*ssa.Function]bool {
 		if f.Parent() != nil || f.Pkg == nil || f.Pkg.Pkg.Path() != pkgDevice || len(f.Blocks) == 0 || f.Synthetic != "" {
 			continue
 		}
-		if !deviceKnownNames[f.Name()] {
+		known := deviceKnownNames[f.Name()]
+		if !known {
+			for k := range deviceKnownNames { // an anchor whose letter case changed is still that anchor, not a new helper
+				if sameAnchorName(k, f.Name()) {
+					known = true
+				}
+			}
+		}
+		if !known {
 			out[f] = true
 		}
 	}
@@ -83,6 +96,19 @@ func (d *dev) ownerOf(fn *ssa.Function) *ssa.Function {
 	return rec(fn, 0)
 }
 
+// refName: the reference-tree name under which fn is anchored (its own name unless only letter case/underscores differ).
+func (d *dev) refName(fn *ssa.Function) string {
+	if fn == nil {
+		return ""
+	}
+	for k, f := range d.fn {
+		if f == fn {
+			return k
+		}
+	}
+	return fn.Name()
+}
+
 // withHelpers adds the new helpers of package device (and the pure value helpers) to an inline set.
 func (d *dev) withHelpers(only map[*ssa.Function]bool) map[*ssa.Function]bool {
 	for f := range d.newHelpers() {
@@ -104,6 +130,24 @@ func newDev(c *Ctx, rule string) *dev {
 	}
 	for i := 0; i < st.NumFields(); i++ {
 		d.fields[st.Field(i).Name()] = st.Field(i)
+	}
+	// anchors are looked up by the reference tree's field names; a field whose name only changed letter case or underscores
+	// is found under its reference name too
+	for _, ref := range deviceKnownFields {
+		if d.fields[ref] != nil {
+			continue
+		}
+		var found *types.Var
+		n := 0
+		for i := 0; i < st.NumFields(); i++ {
+			if sameAnchorName(st.Field(i).Name(), ref) {
+				found = st.Field(i)
+				n++
+			}
+		}
+		if n == 1 {
+			d.fields[ref] = found
+		}
 	}
 	for _, n := range deviceFuncNames {
 		f := c.P.Func(pkgDevice, "Device", n)
